@@ -127,6 +127,15 @@ func genFlagSet() *rapid.Generator[flagSet] {
 	})
 }
 
+// genFlagSetWitnessHeavy is used by the generators whose cases are mostly
+// witness spends (trivially valid before segwit activates).
+func genFlagSetWitnessHeavy() *rapid.Generator[flagSet] {
+	return rapid.Custom(func(t *rapid.T) flagSet {
+		i := rapid.SampledFrom([]int{0, 1, 2, 3, 4, 5, 5, 5, 6, 6, 6, 6, 6, 6, 7, 7, 7, 7, 7, 7, 7}).Draw(t, "flagset")
+		return flagSets[i]
+	})
+}
+
 // TestFlagMirror asserts the model's flag set mirrors txscript.ScriptFlags
 // one-to-one, and that the history sets equal the model's own list.
 func TestFlagMirror(t *testing.T) {
@@ -389,17 +398,32 @@ func genFamily(g string) string {
 	return g
 }
 
-// knownSignature maps a disagreement onto a specific known-finding signature
-// (empty when none applies). Filled in only for confirmed btcd deviations.
+// knownQuirks: confirmed deviations of btcd from Bitcoin Core, each with the
+// model switch that emulates exactly that deviation and the signature under
+// which it is listed in /verif/known_findings.jsonl. A disagreement counts as
+// that known finding only if emulating the deviation restores agreement.
+var knownQuirks = []struct {
+	q   ms.Quirks
+	sig string
+}{
+	{ms.QuirkEmptySigKeepsOp0, "const-scriptcode-empty-sig-op0"},
+	{ms.QuirkStrictBER, "pre-bip66-lax-der-parser"},
+	{ms.QuirkMultisigSkipsPubkeyCheck, "multisig-empty-sig-skips-pubkey-encoding"},
+}
+
+// activeQuirks are the deviations that are listed as known: the model
+// emulates them on the second pass so the search continues behind them.
 func knownSignature(s *spend, fs flagSet, r ms.Result, err error) string {
-	for _, k := range knownClassifiers {
-		if sig := k(s, fs, r, err); sig != "" {
-			return sig
+	for _, k := range knownQuirks {
+		if !ev.IsKnown("C06", k.sig) {
+			continue
+		}
+		r2 := ms.VerifyQuirks(s.tx, s.idx, s.prevouts, fs.model, k.q)
+		if (err == nil) == r2.Valid() {
+			return k.sig
 		}
 	}
 	return ""
 }
-
-var knownClassifiers []func(s *spend, fs flagSet, r ms.Result, err error) string
 
 var _ = bytes.Equal
